@@ -1,5 +1,5 @@
 (* Props/C18.v — cw20-ics20: the token allow-list is governance-only and only ever loosens. *)
-Require Import CwPlus.Params CwPlus.Base CwPlus.AMap CwPlus.Ics20Model CwPlus.Ics20Lemmas CwPlus.Ics20Lemmas2.
+Require Import CwPlus.Params CwPlus.Base CwPlus.AMap CwPlus.Ics20Model CwPlus.Ics20Lemmas CwPlus.Ics20Lemmas2 CwPlus.Ics20Lemmas3 CwPlus.Ics20Lemmas5.
 Open Scope N_scope.
 
 (* every accepted execute call: the allow list only loosens (no entry disappears, no gas limit is
@@ -49,6 +49,26 @@ Proof. exact payout_gas. Qed.
 Theorem c18_loosens_trans : forall a b c, loosens a b -> loosens b c -> loosens a c.
 Proof. exact loosens_trans. Qed.
 
+(* over EVERY history of world operations - calls by anybody, cw20 sends, incoming packets with either payout
+   outcome, acknowledgements, timeouts, donations and migrations, in any order - the allow list only ever
+   loosens: a token once allowed stays allowed, and its gas limit never gets tighter *)
+Theorem c18_allow_only_loosens_history : forall cs w, Inv (w_st w) ->
+  Inv (w_st (wrun w cs)) /\ loosens (allow (w_st w)) (allow (w_st (wrun w cs))).
+Proof. exact allow_only_loosens. Qed.
+
+(* what a single world operation may do to the governance data: only a call by the governance address (Allow /
+   UpdateAdmin) moves the allow list or the address; migrate keeps the list, keeps the address unless it
+   converts the V1 layout, and replaces the default gas limit only as asked; everything else - transfers,
+   packets, acknowledgements, timeouts, donations - leaves all three alone *)
+Theorem c18_world_step : forall w blk o, Inv (w_st w) ->
+  Inv (w_st (wstep w blk o)) /\ gov_step w o (w_st (wstep w blk o)).
+Proof. exact wstep_gov. Qed.
+
+(* hence a history without governance calls and migrations changes none of them *)
+Theorem c18_no_governance_call_no_change : forall cs w, Inv (w_st w) -> Forall not_gov cs ->
+  gov_frame (w_st w) (w_st (wrun w cs)).
+Proof. exact no_gov_call_no_change. Qed.
+
 Example c18_nonvacuous :
   exists st, instantiate (mkInit 100 None (Some 0) [(Some 5, Some 7)] [1]) = Ok st /\
     is_ok (step st (mkBlock 1 0) 0 (Allow (Some 5) (Some 6))) = false /\
@@ -66,3 +86,6 @@ Print Assumptions c18_migrate.
 Print Assumptions c18_gate.
 Print Assumptions c18_payout_gas.
 Print Assumptions c18_loosens_trans.
+Print Assumptions c18_allow_only_loosens_history.
+Print Assumptions c18_world_step.
+Print Assumptions c18_no_governance_call_no_change.
